@@ -18,6 +18,8 @@ import (
 
 	"github.com/bool64/cache"
 
+	orders "verif/harness/orders/model"
+	users "verif/harness/users/model"
 	"verif/vclock"
 	"verif/vsched"
 )
@@ -31,6 +33,7 @@ type c14Cell struct {
 	Perturb string `json:"perturb,omitempty"` // none | hash-altered | hash-missing | name-altered | name-missing
 	Shard   int    `json:"shard"`
 	NShards int    `json:"nshards"`
+	Pool    int    `json:"pool,omitempty"` // hash: 1 = the pool holds two different types both called model.User
 }
 
 func (c c14Cell) id() string { js, _ := json.Marshal(c); return string(js) }
@@ -54,6 +57,7 @@ func c14Cells(tier string) []Cell {
 
 	for sh := 0; sh < 4; sh++ {
 		cells = append(cells, Cell{ID: c14Cell{Mode: "hash", Shard: sh, NShards: 4}.id()})
+		cells = append(cells, Cell{ID: c14Cell{Mode: "hash", Shard: sh, NShards: 4, Pool: 1}.id()})
 	}
 
 	// transfers between processes that registered NOTHING (types hash 0 on both sides): a legitimate setup
@@ -540,6 +544,10 @@ func hashPool(i int) interface{} {
 		return HashB{}
 	case 2:
 		return HashC{}
+	case 4:
+		return orders.User{}
+	case 5:
+		return users.User{}
 	}
 
 	return &HashD{} // registered through a pointer, as values that travel as pointers are
@@ -712,6 +720,10 @@ func c14Hash(cc c14Cell, env *Env) CellResult {
 				}
 			}
 
+			if cc.Pool == 1 && t >= 2 {
+				t += 2 // the pool is {HashA, HashB, orders/model.User, users/model.User}
+			}
+
 			sb.WriteString(strconv.Itoa(t))
 		}
 
@@ -846,7 +858,7 @@ func init() {
 		Cells: c14Cells, Run: c14Run,
 		Rule: "(transfer) all 27 assignments of three cache names (two of them need URL escaping) to exporter-only / importer-only / both, in every third case plus a cache under the empty name on both sides, x every entry set of <=2 entries over the C13 alphabet x backend pairing x request perturbation " +
 			"{none, types hash altered, types hash missing, name altered, name missing}, through an in-process RoundTripper that calls the Export handler (no sockets) and insists on the query parameters the export URL itself carries; " +
-			"(faults) the response body cut, and separately the body read failing, at EVERY byte offset, with the loggers of both sides rotating through {none, Error-only, all levels}; (hash) every registration sequence of length <=4 with repetitions over a pool of 4 types (struct, nested struct, map, and a struct registered through a pointer) (340) x every way of splitting it into variadic GobRegister calls, each in a fresh process",
+			"(faults) the response body cut, and separately the body read failing, at EVERY byte offset, with the loggers of both sides rotating through {none, Error-only, all levels}; (hash) every registration sequence of length <=4 with repetitions over a pool of 4 types (struct, nested struct, map, and a struct registered through a pointer; and once more with two different types from different packages that are both called model.User) (340 each) x every way of splitting it into variadic GobRegister calls, each in a fresh process",
 		Assumptions: []string{
 			"net/http is used through Handler.ServeHTTP and a custom RoundTripper only; no scheduler is active",
 			"GobTypesHashReset is not part of the statement (fresh processes are) and is not used",
